@@ -395,6 +395,9 @@ def run(ctx, rep):
     if not partial:
         rep.ok("R12.7", "WALRecord::decode", "only exact reads", where=gd.where(gd.entry))
 
+    # ---------------- R12.8 -------------------------------------------------------------
+    r12_8(ctx, rep)
+
     # ---------------- R12.5 -------------------------------------------------------------
     c09.r09_1_2(ctx, _Rename(rep))
 
@@ -414,6 +417,67 @@ def run(ctx, rep):
     if not n_sites:
         rep.ok("R12.6", "decode cones", "no non-synthetic assert, unwrap/expect, indexing or explicit panic in WALRecord::decode / RaftLogState::decode",
                where=gd.where(gd.entry))
+
+
+def r12_8(ctx, rep):
+    """R12.8: crate-local io::Read adaptors (the offset-counting reader under the record scan): the consumed-byte counter advances by exactly
+    the number of bytes the inner reader DELIVERED (the Ok value of the inner read), and that same count is returned."""
+    rep.rule("R12.8", "every crate-local io::Read adaptor forwards to one inner read on the same buffer, returns the inner call's count, and every "
+                      "counter it keeps advances by exactly that delivered count (not by the requested length): the record scan derives "
+                      "each record's consumed size and every chunk offset from this counter")
+    keys = [k for k, b in ctx.facts.bodies.items() if (b.get("impl_trait") or "").endswith("io::Read") and k.endswith("::read")]
+    rep.floor("R12.8", "crate-local io::Read::read implementations", len(keys), 1)
+    for k in keys:
+        g = ctx.graph(k)
+        P = ctx.product(k)
+        nm_ = short_key(k)
+        inner = [n for n in P.calls(r"io::Read::read$") if g.inst(n).id == 0]
+        if len(inner) != 1:
+            rep.violation("R12.8", "%s|inner-reads:%d" % (nm_, len(inner)), nm_, "expected exactly one forwarded inner read", where=g.where(g.entry))
+            continue
+        cn = inner[0]
+        args = [strip_ids(a) for a in event_args(g, cn)]
+        okv = None
+        bad = []
+        if not (len(args) == 2 and args[0][0] == "field" and strip_ids(args[0][1]) == ("arg", 1) and args[1] == ("arg", 2)):
+            bad.append(("inner-read-args", "the inner read is not `self.<field>.read(buf)` on the caller's buffer: %s" % ", ".join(expr_s(a) for a in args), cn))
+        n_cnt = 0
+        for n in sorted(P.live):
+            inst = g.inst(n)
+            if inst.id != 0:
+                continue
+            for si, st in enumerate(g.stmts(n)):
+                if st["k"] != "assign":
+                    continue
+                pl = st["p"]
+                if pl["l"] == 1 and pl["proj"] and pl["proj"][0] == "deref":
+                    e = strip_ids(g.prov_rvalue(inst, st["rv"], (n, si)))
+                    fld = [el for el in pl["proj"] if isinstance(el, dict) and "f" in el]
+                    fname = fld[-1].get("n") if fld else "?"
+                    n_cnt += 1
+                    ok = False
+                    x = e
+                    if x[0] == "field" and x[1][0] == "binop":
+                        x = x[1]
+                    if x[0] == "binop" and x[1].startswith("Add"):
+                        ops = [x[2], x[3]]
+                        isf = [o for o in ops if o[0] == "field" and o[1] == ("arg", 1) and o[2] == fname]
+                        isn = [o for o in ops if o[0] == "okval" and o[1][0] == "call" and re.search(r"Read::read$", o[1][1])]
+                        ok = len(isf) == 1 and len(isn) == 1
+                    if not ok:
+                        bad.append(("counter:%s" % fname, "self.%s is set to %s, which is not `self.%s + <bytes delivered by the inner read>`"
+                                    % (fname, expr_s(e), fname), n))
+                if pl["l"] == 0 and st["rv"]["k"] == "agg" and "Ok" in str(st["rv"].get("variant", st["rv"].get("adt", ""))):
+                    okv = strip_ids(g.prov_rvalue(inst, st["rv"], (n, si)))
+        okx = okv[3][0] if okv and okv[0] == "agg" and len(okv) > 3 and okv[3] else None
+        if not (okx and okx[0] == "okval" and okx[1][0] == "call" and re.search(r"Read::read$", okx[1][1])):
+            bad.append(("returned-count", "the Ok value returned is %s, not the inner read's count" % (expr_s(okv) if okv else "?"), cn))
+        for (what, detail, n) in bad:
+            rep.violation("R12.8", "%s|%s" % (nm_, what), nm_, detail + ": after a short read (buffer refill boundary) the scan's offsets drift from the "
+                          "file, so consumed sizes stop matching what the encoder reported", where=g.where(n))
+        if not bad:
+            rep.ok("R12.8", nm_, "one inner read on the caller's buffer; %d counter update(s) = field + delivered count; returns the delivered count" % n_cnt,
+                   where=g.where(cn))
 
 
 class _Rename:
